@@ -117,6 +117,18 @@ def make_cases(rng, tier):
     add(block([], ("expr", emath(matom(acall(call("three", "h.PSub.GetN", [("const", kint(6))])))))), [host()])
     add(block([], ("expr", emath(matom(acall(call("three", "h.Sub.GetN", [("const", kint(6))])))))), [host()])
     add(block([scall(call("method", "h.Boom", [])), scall(call("method", "h.Nope", [])), scall(call("method", "zz.Mark", [("const", kint(1))]))]), [host()])
+    # value-receiver methods through a pointer, a struct value and a struct-typed field — the same method name sits at different
+    # indexes of the two method sets; both orders within one text, and pointer-receiver methods asked of a value
+    hv = lambda: dict(host(), name="hv", kind="structv")
+    for first, second in (("h.Echo", "hv.Echo"), ("hv.Echo", "h.Echo")):
+        add(block([assign(("var", "x"), "=", ("math", matom(acall(call("method", first, [("const", kint(7))])))))],
+                  ("expr", emath(mk_mbin("+", mvar("x"), matom(acall(call("method", second, [("const", kint(30))]))))))), [host(), hv()])
+    for first, second in (("h.Sub.EchoN", "h.PSub.EchoN"), ("h.PSub.EchoN", "h.Sub.EchoN"), ("hv.Sub.EchoN", "h.PSub.GetN")):
+        inj = [host(), hv()] if first.startswith("hv") else [host()]
+        add(block([assign(("var", "x"), "=", ("math", matom(acall(call("three", first, [("const", kint(6))])))))],
+                  ("expr", emath(mk_mbin("+", mvar("x"), matom(acall(call("three", second, [("const", kint(40))]))))))), inj)
+    add(block([], ("expr", emath(matom(acall(call("method", "hv.Id64", [("const", kint(1))])))))), [hv()])
+    add(block([scall(call("method", "hv.Mark", [("const", kint(1))]))], ("expr", emath(matom(acall(call("method", "hv.Echo", [("const", kint(2))])))))), [hv()])
     # (5) an injected name always refers to the injected object, even if a "local" of that name is assigned
     add(block([assign(("var", "a"), "=", ("math", mint(5)))], rd("a")), [inj_val("a", tv_int("i64", 1))])
     add(block([assign(("var", "p"), ":=", ("math", mint(5))), assign(("var", "p2"), "=", ("math", mint(6)))], rd("p2")), [inj_ptr("p", tv_int("i16", 1))])
@@ -131,6 +143,11 @@ def make_cases(rng, tier):
     for _ in range(n_rand):
         g = StmtGen(rng, wild=0.02)
         add(g.blk(rng.randint(1, 2), False, top=True), g.inject() + [inj_map("mp1", "s", "i64", [(tv_str("only"), tv_int("i64", 9))])])
+    # every third case is then executed AGAIN on the same data context after the host has bound FRESH objects to the same
+    # names (no Del in between): reads must see the new objects' current values and writes must land in them
+    for c in cases:
+        if c["id"] % 3 == 0:
+            c["reinject"] = True
     return cases
 
 
@@ -148,7 +165,7 @@ def nontrivial(c, o):
 
 RULE = ("systematic: writes `target = src` for every target in 16 struct-field paths (one and two levels, by value and by pointer) x 5 source classes x source values (boundaries of every width); pointer-injected scalars of all 14 kinds x source classes; "
         "maps with string / int64 / variable keys, slices and arrays with literal / variable indexes, injected directly and by pointer, over 8 (thorough 14) element kinds; key coercion and out-of-range / negative / string indexes; container fields of a struct; "
-        "calls of every catalogue function with every argument class, arity faults, missing functions, panicking functions, methods and three-level calls; shadowing of injected names; reads of missing names / fields; random programs; "
+        "calls of every catalogue function with every argument class, arity faults, missing functions, panicking functions, methods and three-level calls; shadowing of injected names; reads of missing names / fields; random programs; every third text executed a second time after fresh objects were re-injected under the same names into the same data context; "
         "compared: returned value, recorded calls with the dynamic types of the received arguments, and the WHOLE host store afterwards (so untouched data is checked too); distinct non-trivial = distinct (target path, source kind, container kinds) whose run succeeded")
 
 
